@@ -157,6 +157,7 @@ impl World {
                     self.dial.remove(&p);
                 }
                 self.links.insert(p, link);
+                info = json!({"dir": if link.is_inbound() { "in" } else { "out" }});
                 self.alice.service.connected(self.nids[p], addr, link);
                 let msg = self.node_ann(p);
                 self.alice.service.received_message(self.nids[p], msg);
@@ -210,8 +211,13 @@ impl World {
                 self.alice.service.command(Command::Fetch(self.rids[us(1) - 1], self.nids[us(2)], std::time::Duration::from_secs(3), tx));
             }
             "annfetch" => {
-                // inventory announcement by connected peer p listing repository r
+                // inventory announcement by connected peer p listing repository r (the wire only delivers
+                // messages of established connections)
                 let p = us(2);
+                if !self.links.contains_key(&p) {
+                    info = json!({"skipped": true});
+                    return;
+                }
                 self.ann_ts += 1;
                 let inv = InventoryAnnouncement {
                     inventory: BoundedVec::try_from(vec![self.rids[us(1) - 1]]).unwrap(),
@@ -312,7 +318,8 @@ fn main() {
     for run in scripts {
         let mut w = World::new(&run);
         let cap = run["capacity"].as_u64().unwrap_or(1);
-        out.emit(&json!({"ev": "init", "run": run["run"], "peers": w.npeers, "repos": w.rids.len(), "capacity": cap, "queuemax": 128}));
+        out.emit(&json!({"ev": "init", "run": run["run"], "peers": w.npeers, "repos": w.rids.len(), "capacity": cap, "queuemax": 128,
+            "persistent": run["persistent"].as_array().cloned().unwrap_or_default()}));
         for op in run["ops"].as_array().unwrap() {
             let (panic, info) = w.apply(op);
             let dead = panic.is_some();
